@@ -229,7 +229,7 @@ func genKeyedItem(r *lib.Rng, tags tagset) item {
 			tags["resp-ntp-bad"] = true
 		}
 		if r.Intn(10) == 0 {
-			it.addr = 1 + r.Intn(6)
+			it.addr = 1 + r.Intn(8)
 			tags["resp-addr"] = true
 		}
 	}
